@@ -77,13 +77,19 @@ def slice_tuples(level):
 # ------------------------------------------------------------------ C01
 def run_C01(ctx):
     ctx.build("opt")
-    lvl = 0 if ctx.quick() else 1
-    nsub = 25 if ctx.quick() else 100          # (leafset(3) x 120 tuples does not finish in 25 minutes)
+    # the subset of tuples is drawn anew for every layout, which costs time proportional to the alphabet: the wide alphabet
+    # (level 1) made 2 400 states/min and never finished on depth-2 layouts; it now runs on depth-1 layouts in its own phase
+    nsub = 25 if ctx.quick() else 80
     consts = session_consts(OpSet='{"slice"}', LeafSet=leafset(2),
-                            SliceTuples="RandomSubset(%d, %s)" % (nsub, slice_tuples(lvl)))
+                            SliceTuples="RandomSubset(%d, %s)" % (nsub, slice_tuples(0)))
     ctx.tlc_phase("slice-lists-options", "Session", consts, invariants=["Refines", "Closed"],
                   require_actions=["SliceOp", "WrapListOffset", "WrapList", "WrapRegular", "WrapIndexedOption"],
-                  seed_tlc=True)
+                  seed_tlc=True, timeout=3000)
+    if not ctx.quick():
+        consts = session_consts(OpSet='{"slice"}', LeafSet=leafset(3), MaxDepth="1",
+                                SliceTuples="RandomSubset(200, %s)" % slice_tuples(1))
+        ctx.tlc_phase("slice-wide-alphabet", "Session", consts, invariants=["Refines", "Closed"],
+                      require_actions=["SliceOp", "WrapListOffset", "WrapList"], seed_tlc=True, timeout=3000)
     # multi-dimensional (rectilinear) data and 2-d index arrays of every small shape
     arr2 = ("{Arr2(p[1], p[2]) : p \\in {q \\in {<<0, 1, 2, 2, -1, 0>>, <<1, 0, 0, 1, 1, 0>>, <<0, 0, 1, 0, 2, 1, 1, 2, 0, -1, -2, 0>>, "
             "<<2, 1>>, <<0, -3, 1, 5>>} \\X {1, 2, 3} : Len(q[1]) % q[2] = 0}}")
